@@ -187,6 +187,15 @@ GraphOK(e) ==
     \* C02: the surviving objects do not overlap each other
     /\ G("C02:survivors-overlap", \A i, j \in DOMAIN e.nodes : i < j =>
             Disjoint(Ivl(e.nodes[i].a, e.nodes[i].sz), Ivl(e.nodes[j].a, e.nodes[j].sz)))
+    \* C36 in situ: the treadmill of every large object space holds each object in at most one of
+    \* its four sets, and every reachable object of that space in exactly one.
+    /\ G("C36:treadmill-partition", "los" \in DOMAIN e => \A i \in DOMAIN e.los :
+            LET all == e.los[i].from \o e.los[i].to \o e.los[i].cn \o e.los[i].an IN
+            Cardinality({all[j] : j \in DOMAIN all}) = Len(all))
+    /\ G("C36:reachable-large-object-not-on-treadmill", "los" \in DOMAIN e => \A i \in DOMAIN e.los :
+            LET all == e.los[i].from \o e.los[i].to \o e.los[i].cn \o e.los[i].an
+                ids == {all[j] : j \in DOMAIN all} IN
+            \A k \in DOMAIN e.nodes : e.nodes[k].sp = e.los[i].n => e.nodes[k].id \in ids)
     \* vo_bit builds: every object the roots reach is a valid object for MMTk. A reference that was
     \* not updated still reads an intact stale copy in released memory; its valid-object bit is gone.
     /\ G("C01:reference-to-reclaimed-object", \A i \in DOMAIN e.nodes :
